@@ -91,10 +91,9 @@ def r_who_create_task(ctx: Ctx, rule="R01.2"):
     sites = create_sites(ctx, funcs)
     n_wrap = n_spawn = 0
     for n, arg, targets in sites:
-        host = ctx.fname(n.func)
         if targets and any(t.name == "_task_wrapper" for t in targets):
             n_wrap += 1
-            rep.ob(rule, "pool tasks are created only inside _start_task", host == "_start_task", node=n,
+            rep.ob(rule, "pool tasks are created only inside _start_task", ctx.hosts(n.func) <= {"_start_task"}, node=n,
                    detail=f"created in {n.func.short}")
         elif targets and all(is_spawner(ctx, t) for t in targets):
             n_spawn += 1
@@ -172,8 +171,7 @@ def r_who_release(ctx: Ctx, rule="R01.3"):
     rel = ctx.effects(fields=["_enough_room"], kinds=["release", "maybe-release"])
     rep.floor(rule, "release sites of the pool semaphore", len(rel), 1)
     for e in rel:
-        host = ctx.fname(e.node.func)
-        rep.ob(rule, "the pool slot is released only by _task_ending", host == "_task_ending" and ctx.in_pool(e.node.func), node=e.node,
+        rep.ob(rule, "the pool slot is released only by _task_ending", ctx.hosts(e.node.func) <= {"_task_ending"} and ctx.in_pool(e.node.func), node=e.node,
                detail=f"release in {e.node.func.short}")
     # exactly-one release per task over all edges of the wrapper
     pred = release_pred(ctx)
@@ -193,14 +191,13 @@ def r_who_write_semaphore(ctx: Ctx, rule="R01.4"):
     effs = [e for e in effs if field_of(e.path) == "_enough_room" or "._enough_room" in e.path]
     rep.floor(rule, "writes of the semaphore or its counter", len(effs), 2)
     for e in effs:
-        host = ctx.fname(e.node.func)
         rep.ob(rule, "semaphore object/counter written only by the constructor and the pool_size setter",
-               host in ("__init__", "pool_size.setter") and ctx.in_pool(e.node.func), node=e.node, detail=f"{e.kind} {e.path} in {e.node.func.short}")
+               ctx.hosts(e.node.func) <= {"__init__", "pool_size.setter"} and ctx.in_pool(e.node.func), node=e.node, detail=f"{e.kind} {e.path} in {e.node.func.short}")
     # acquire sites: only _start_task takes pool slots
     acq = ctx.effects(fields=["_enough_room"], kinds=["acquire", "maybe-acquire"])
     rep.floor(rule, "acquire sites of the pool semaphore", len(acq), 1)
     for e in acq:
-        rep.ob(rule, "pool slots are acquired only by _start_task", ctx.fname(e.node.func) == "_start_task", node=e.node)
+        rep.ob(rule, "pool slots are acquired only by _start_task", ctx.hosts(e.node.func) <= {"_start_task"}, node=e.node)
         # the acquire must be awaited (an un-awaited acquire() acquires nothing)
         g = ctx.an.cfg(e.node.func)
         awaited = any(n.op == "await" and strip_cast(n.ast.value) is e.node.ast for n in g.nodes)
@@ -313,6 +310,7 @@ def r_handoff(ctx: Ctx, rule="R02.1"):
             continue
         if stored and cancels:
             rep.ob(rule, "a pool task cancelled before its first step still returns its slot and leaves the running registry", False, node=site,
+                   construct="create_task(" + ",".join(t.qual for t in cal.targets) + "(...)) with the slot held",
                    detail=f"slot acquired at {acq[0].where()} is released only inside the task body ({', '.join(t.short for t in cal.targets)} -> _task_ending); "
                           f"the task is published in _tasks_running in the same statement and can be cancelled by {reachers} "
                           "before it has run its first step, in which case the body (and its finally) never executes")
@@ -386,21 +384,58 @@ def _removal_is_snapshot_keyed(ctx: Ctx, f: FuncInfo, r: Node, eff, susp_before:
     if it is None:
         # guarded per element by done()?
         return None
-    base = it
-    while isinstance(base, ast.Call) and isinstance(base.func, ast.Name) and base.func.id in ("list", "tuple", "set", "sorted", "enumerate", "iter", "reversed") and base.args:
-        base = base.args[0]
-    if isinstance(base, ast.Call) and isinstance(base.func, ast.Attribute) and base.func.attr in ("keys", "items", "values", "copy"):
-        base = base.func.value
-    if isinstance(base, ast.Name) and base.id in sc.defs:
-        return True if _defined_before(ctx, f, base.id, susp_before) else False
-    p = ctx.eff.paths(f).of(base)
-    if p is not None and p.startswith("self."):
+    # sources of the iteration: local snapshots and/or live registries
+    live, locals_ = [], []
+    for sub in ast.walk(it):
+        if isinstance(sub, ast.Attribute):
+            p = ctx.eff.paths(f).of(sub)
+            if p is not None and p.count(".") == 1 and field_of(p) in ("_tasks_ended", "_tasks_cancelled", "_tasks_running"):
+                live.append(p)
+        elif isinstance(sub, ast.Name) and sub.id in sc.defs and sub.id != sc.selfname:
+            locals_.append(sub.id)
+    if live:
         # iterating the live registry (or a copy made after the suspension): per-element guard required
         guard = _enclosing_if_texts(f, r)
         if any(".done()" in t for t in guard):
             return True
         return False
+    if locals_:
+        verdicts = [_snapshot_gathered(ctx, f, r, nm, eff) for nm in locals_]
+        if all(v is True for v in verdicts):
+            return True
+        if any(v is False for v in verdicts):
+            return False
     return None
+
+
+def _snapshot_gathered(ctx: Ctx, f: FuncInfo, r: Node, name: str, eff) -> Optional[bool]:
+    """The ids removed come from local snapshot `name`; its tasks must have been awaited between the
+    snapshot and the removal (forget <= gathered), or the snapshot and the awaited set are taken in one atomic segment."""
+    g = ctx.an.cfg(f)
+    defs = [n for n in g.nodes if n.op == "assign" and n.pred and any(isinstance(t, ast.Name) and t.id == name for t in (n.ast.targets if isinstance(n.ast, ast.Assign) else [n.ast.target]))]
+    if not defs:
+        return None
+    gathers = [n for n in g.nodes if n.pred and n.op == "await" and n.awaited is not None and n.awaited.kind == "ext" and n.awaited.name in GATHER]
+    for G in gathers:
+        if not dominated_by_completion(g, [G], r):
+            continue
+        call = strip_cast(G.ast.value)
+        mentions_snapshot = any(isinstance(x, ast.Name) and x.id == name for x in ast.walk(call))
+        arg_paths = {ctx.eff.paths(f).of(a) for a in call.args}
+        ok_all = True
+        for d in defs:
+            if not can_follow(d, G):
+                ok_all = False
+                break
+            if mentions_snapshot:
+                continue
+            mid = between([d], [G])
+            if any(ctx.effective(m) or m.user for m in mid) or eff.path not in arg_paths:
+                ok_all = False
+                break
+        if ok_all:
+            return True
+    return False
 
 
 def _defined_before(ctx: Ctx, f: FuncInfo, name: str, susp: List[Node]) -> bool:
@@ -443,3 +478,265 @@ def _enclosing_if_texts(f: FuncInfo, n: Node) -> List[str]:
 
     rec(f.node.body, [])
     return out
+
+
+# ---------------------------------------------------------------------- R02.x
+def r_wrapper_armed(ctx: Ctx, rule="R02.2"):
+    rep = ctx.rep
+    rep.rule(rule, "in _task_wrapper no suspension step and no user-code step precedes the protected region whose clean-up awaits _task_ending; "
+                   "the user coroutine is awaited inside it")
+    for w in ctx.pool_funcs("_task_wrapper"):
+        g = ctx.an.cfg(w)
+        aw = ctx.nodes(w, lambda n: n.op == "await" and n.awaited_user)
+        rep.floor(rule, "await of the user coroutine in the wrapper", len(ctx.distinct_sites(aw)), 1)
+        pre = set()
+        for a in aw:
+            pre |= between([g.entry], [a])
+        bad = [m for m in pre if ctx.effective(m) or m.user]
+        rep.ob(rule, "nothing can suspend or run user code before the user coroutine is awaited under protection", not bad, func=w,
+               construct=bad[0] if bad else "entry .. await awaitable", detail="" if not bad else f"{bad[0].where()} {bad[0].text(60)}")
+
+
+def r_spawner_capacity_info(ctx: Ctx, rule="R02.5"):
+    rep = ctx.rep
+    rep.rule(rule, "spawners never own pool capacity: the pool slot is acquired only inside _start_task (recorded: coroutine.close() and the "
+                   "map semaphore release on interruption are reported, not required)")
+    for name in ("_apply_spawner", "_arg_consumer", "_start_num"):
+        for f in ctx.pool_funcs(name, required=False):
+            acq = [e for e in ctx.eff.of_func(f) if e.kind == "acquire" and e.path == SLOT]
+            rep.ob(rule, "spawner does not acquire pool slots itself", not acq, func=f, construct=acq[0].node if acq else f"{f.name}: no pool-slot acquire")
+            closes = ctx.nodes(f, lambda n: n.op == "call" and isinstance(n.ast.func, ast.Attribute) and n.ast.func.attr == "close")
+            rep.ob(rule, "unused coroutine closed on interruption (recorded only)", "info", func=f, construct=f"close() sites: {len(ctx.distinct_sites(closes))}")
+
+
+# ---------------------------------------------------------------------- R03.1
+REG_TABLE = {
+    # field: kind -> allowed hosts
+    "_tasks_running": {"insert": {"_start_task"}, "remove": {"_task_cancellation", "_task_ending"}, "clear": {"gather_and_close"}, "assign": {"__init__"}},
+    "_tasks_cancelled": {"insert": {"_task_cancellation"}, "remove": {"_task_ending", "flush", "gather_and_close"}, "clear": {"flush", "gather_and_close"}, "assign": {"__init__"}},
+    "_tasks_ended": {"insert": {"_task_ending"}, "remove": {"flush", "gather_and_close"}, "clear": {"flush", "gather_and_close"}, "assign": {"__init__"}},
+}
+
+
+def r_registry_who(ctx: Ctx, rule="R03.1"):
+    rep = ctx.rep
+    rep.rule(rule, "registry transition table = WHO(write of _tasks_running/_tasks_cancelled/_tasks_ended): insert->running only in _start_task; "
+                   "running->cancelled only in _task_cancellation; ->ended only in _task_ending; forgetting only in flush (ended, cancelled) and "
+                   "gather_and_close (all three)")
+    counts = {"insert": 0, "move": 0, "forget": 0}
+    for fld, table in REG_TABLE.items():
+        for e in ctx.effects(fields=[fld], kinds=["insert", "remove", "clear", "assign", "aug", "maybe-pop", "maybe-clear", "maybe-popitem", "maybe-update"]):
+            # only the registry itself, not its elements (self._tasks_running[] is a Task)
+            if not re.search(r"\." + fld + r"$", e.path):
+                continue
+            kind = e.kind.replace("maybe-", "")
+            kind = {"pop": "remove", "popitem": "remove", "update": "insert", "aug": "assign"}.get(kind, kind)
+            allowed = table.get(kind, set())
+            hosts = ctx.hosts(e.node.func)
+            ok = hosts <= allowed and ctx.in_pool(e.node.func)
+            if kind == "assign" and not ok and hosts <= {"flush", "gather_and_close"} and fld != "_tasks_running" or (kind == "assign" and hosts <= {"gather_and_close"}):
+                ok = True  # rebuilding idiom; judged by SNAPSHOT-FORGET
+            rep.ob(rule, f"{kind} on {fld} only by {sorted(allowed)}", ok, node=e.node, detail=f"{e.kind} {e.path} on behalf of {sorted(hosts)}")
+            if kind == "insert":
+                counts["insert" if fld == "_tasks_running" else "move"] += 1
+            elif kind in ("clear",) or (kind == "remove" and hosts <= {"flush", "gather_and_close"}):
+                counts["forget"] += 1
+            elif kind == "remove":
+                counts["move"] += 1
+    rep.floor(rule, "inserts into the running registry", counts["insert"], 1)
+    rep.floor(rule, "registry moves (pop/insert pairs)", counts["move"], 5)
+    rep.floor(rule, "forgetting sites", counts["forget"], 5)
+    # keyed moves use the function's task id on both sides
+    for name in ("_task_cancellation", "_task_ending"):
+        for f in ctx.pool_funcs(name):
+            for n in ctx.distinct_sites(ctx.nodes(f, lambda n: n.op == "assign" and any(e.kind == "insert" and field_of(e.path) in REG_TABLE for e in ctx.eff.of_node(n)))):
+                tgt = (n.ast.targets if isinstance(n.ast, ast.Assign) else [n.ast.target])[0]
+                keys = [tgt.slice] if isinstance(tgt, ast.Subscript) else []
+                val = n.ast.value
+                if isinstance(val, ast.Call) and isinstance(val.func, ast.Attribute) and val.func.attr == "pop" and val.args:
+                    keys.append(val.args[0])
+                same = len({ast.unparse(k) for k in keys}) == 1 and all(isinstance(k, ast.Name) and k.id in f.param_names() for k in keys)
+                rep.ob(rule, "a registry move files the same id it removed (the function's task id)", same if keys else None, node=n)
+
+
+# ---------------------------------------------------------------------- R03.4
+def r_lifecycle_callers(ctx: Ctx, rule="R03.4"):
+    rep = ctx.rep
+    rep.rule(rule, "_task_cancellation is called only from the handler for exactly asyncio.CancelledError attached to the try that awaits the user "
+                   "coroutine, _task_ending only from that try's clean-up; neither from a loop nor from anywhere else")
+    for name in ("_task_cancellation", "_task_ending"):
+        sites = []
+        for f in ctx.pool_funcs(name):
+            sites += ctx.callers(f)
+        sites = [(g, n) for g, n in sites]
+        rep.floor(rule, f"callers of {name}", len({(g.qual, id(n.ast)) for g, n in sites}), 1)
+        for g, n in {(g.qual, id(n.ast)): (g, n) for g, n in sites}.values():
+            rep.ob(rule, f"{name} is called only by the task wrapper", ctx.hosts(g) <= {"_task_wrapper"}, node=n, detail=f"called from {g.short}")
+            rep.ob(rule, f"{name} is not called from inside a loop", not n.loops, node=n)
+    for w in ctx.pool_funcs("_task_wrapper"):
+        g = ctx.an.cfg(w)
+        for h in ctx.nodes(w, lambda n: n.op == "handler"):
+            inside = reach([h], lambda a, b, lab: lab[0] in NORMAL_KINDS)
+            calls = [m for m in inside if ctx.is_call_to(m, "_task_cancellation")]
+            if not calls:
+                continue
+            exact = all(ctx.hier.canon(t) == CANCELLED for t in h.types)
+            rep.ob(rule, "the handler that runs the cancel protocol catches exactly asyncio.CancelledError", exact, node=h,
+                   detail=f"handler classes: {[t.rpartition('.')[2] for t in h.types]}")
+
+
+# ---------------------------------------------------------------------- R03.5
+ROLE_BY_NAME = {
+    "group_name": "GROUP", "func": "FUNC", "_func": "FUNC", "args": "ARGS", "_args": "ARGS", "kwargs": "KWARGS", "_kwargs": "KWARGS",
+    "num": "NUM", "num_concurrent": "NCONC", "arg_iter": "ITER", "args_iter": "ITER", "kwargs_iter": "ITER", "arg_stars": "STARS",
+    "end_callback": "END", "_end_callback": "END", "actual_end_callback": "END", "cancel_callback": "CANCEL", "_cancel_callback": "CANCEL",
+    "return_exceptions": "RETEXC", "task_id": "ID", "awaitable": "CORO", "coroutine": "CORO", "msg": "MSG", "ignore_lock": "IGNLOCK",
+    "map_semaphore": "MAPSEM", "semaphore": "MAPSEM", "pool_size": "SIZE", "name": "NAME",
+}
+CUSTOM_CB_ROLE = {"_task_ending": "END", "_task_cancellation": "CANCEL"}
+
+
+def param_role(f: FuncInfo, pname: str) -> Optional[str]:
+    if pname == "custom_callback":
+        return CUSTOM_CB_ROLE.get(f.name)
+    return ROLE_BY_NAME.get(pname)
+
+
+def expr_role(ctx: Ctx, f: FuncInfo, e: Optional[ast.AST], _depth: int = 0) -> Optional[str]:
+    sc = ctx.an.scope(f)
+    if e is None or _depth > 4:
+        return None
+    if isinstance(e, ast.Constant) and e.value is None:
+        return "NONE"
+    if isinstance(e, ast.Name):
+        if e.id in sc.params:
+            return param_role(f, e.id)
+        if e.id in sc.defs:
+            roles = set()
+            for h in sc.defs[e.id]:
+                if h[0] == "assign":
+                    roles.add(expr_role(ctx, f, h[1], _depth + 1))
+                elif h[0] == "ann":
+                    roles.add(expr_role(ctx, f, h[2], _depth + 1))
+                else:
+                    roles.add(None)
+            roles.discard("NONE")
+            if len(roles) == 1:
+                return roles.pop()
+            return None
+        if f.parent is not None:
+            return expr_role(ctx, f.parent, e, _depth + 1)
+        return None
+    if isinstance(e, ast.Attribute) and isinstance(e.value, ast.Name) and e.value.id == sc.selfname:
+        return ROLE_BY_NAME.get(e.attr)
+    if isinstance(e, ast.IfExp):
+        a, b = expr_role(ctx, f, e.body, _depth + 1), expr_role(ctx, f, e.orelse, _depth + 1)
+        if a == b or b in ("NONE", None):
+            return a
+        if a in ("NONE", None):
+            return b
+        return None
+    if isinstance(e, ast.Call):
+        cal = sc.callee(e)
+        if cal.kind == "pkg" and any(t.name == "_get_map_end_callback" for t in cal.targets):
+            return "END"
+        if cal.kind == "ctor" and cal.name.endswith("Semaphore"):
+            return "MAPSEM"
+    return None
+
+
+def r_wiring(ctx: Ctx, rule: str, roles: Set[str], floor: int, what: str):
+    rep = ctx.rep
+    rep.rule(rule, f"WIRING({what}): at every call between package functions an argument whose source has one of the roles {sorted(roles)} "
+                   "is bound to a parameter of the same role (positional order, keywords and defaults resolved against the callee's signature)")
+    n_checked = 0
+    for f in ctx.pool_functions():
+        sc = ctx.an.scope(f)
+        for node in sc._own_nodes():
+            if not isinstance(node, ast.Call):
+                continue
+            cal = sc.callee(node)
+            if cal.kind not in ("pkg", "ctor"):
+                continue
+            targets = cal.targets
+            if cal.kind == "ctor":
+                init = ctx.prog.lookup(cal.cls, "__init__") if cal.cls is not None else None
+                targets = [init] if init is not None else []
+            for t in targets:
+                for pname in t.param_names():
+                    prole = param_role(t, pname)
+                    arg = ctx.call_arg(node, t, pname)
+                    if arg is None:
+                        continue
+                    arole = expr_role(ctx, f, arg)
+                    if prole is None or arole in (None, "NONE"):
+                        continue
+                    if prole not in roles and arole not in roles:
+                        continue
+                    n_checked += 1
+                    rep.ob(rule, f"argument with role {arole} bound to parameter `{pname}` of {t.short} (role {prole})", arole == prole, func=f,
+                           construct=node, detail=f"{ast.unparse(arg)} -> {pname}")
+    # field stores in constructors: self._end_callback = end_callback
+    for f in ctx.pool_functions():
+        sc = ctx.an.scope(f)
+        for node in sc._own_nodes():
+            tgt = val = None
+            if isinstance(node, ast.Assign) and len(node.targets) == 1:
+                tgt, val = node.targets[0], node.value
+            elif isinstance(node, ast.AnnAssign) and node.value is not None:
+                tgt, val = node.target, node.value
+            if isinstance(tgt, ast.Attribute) and isinstance(tgt.value, ast.Name) and tgt.value.id == sc.selfname:
+                prole, arole = ROLE_BY_NAME.get(tgt.attr), expr_role(ctx, f, val)
+                if prole in roles and arole not in (None, "NONE"):
+                    n_checked += 1
+                    rep.ob(rule, f"value with role {arole} stored in field {tgt.attr} (role {prole})", arole == prole, func=f, construct=node)
+    rep.floor(rule, f"role-carrying bindings checked ({what})", n_checked, floor)
+
+
+# ---------------------------------------------------------------------- R03.6
+def r_execute_optional(ctx: Ctx, rule="R03.6"):
+    rep = ctx.rep
+    rep.rule(rule, "execute_optional: whenever `function` is callable it is called exactly once with *args, **kwargs; under the "
+                   "iscoroutinefunction guard the call is awaited")
+    f = ctx.prog.func("internals.helpers.execute_optional")
+    g = ctx.an.cfg(f)
+    params = f.param_names()
+    fn, pa, pk = params[0], params[1], params[2]
+    ucalls = ctx.nodes(f, lambda n: n.op == "call" and n.callee is not None and n.callee.kind == "user" and isinstance(n.ast.func, ast.Name) and n.ast.func.id == fn)
+    rep.floor(rule, "calls of the optional function", len(ctx.distinct_sites(ucalls)), 1)
+
+    def mentions(e: ast.AST, name: str) -> bool:
+        return any(isinstance(c, ast.Call) and isinstance(c.func, ast.Name) and c.func.id == name and c.args and isinstance(c.args[0], ast.Name) and c.args[0].id == fn
+                   for c in ast.walk(e))
+
+    def not_callable_branch(a: Node, b: Node, lab: Label) -> bool:
+        if a.op == "test" and mentions(a.ast, "callable") and lab[0] in ("T", "F"):
+            neg = isinstance(a.ast, ast.UnaryOp) and isinstance(a.ast.op, ast.Not)
+            callable_true = "F" if neg else "T"
+            return lab[0] == callable_true
+        return True
+
+    res = count_paths(ctx.an, f, lambda n: n in ucalls, ef=not_callable_branch, interproc=False)
+    ret = res.get(("ret", None), frozenset())
+    # a call that raises leaves through an exceptional exit: there the call has begun exactly once as well
+    rep.ob(rule, "a callable `function` is called exactly once before execute_optional returns", ret == frozenset({1}), func=f,
+           construct="paths with callable(function)", detail=f"call counts on normal return: {sorted(ret)}")
+    for u in ctx.distinct_sites(ucalls):
+        c: ast.Call = u.ast
+        fwd = any(isinstance(a, ast.Starred) and isinstance(a.value, ast.Name) and a.value.id == pa for a in c.args) and \
+            any(k.arg is None and isinstance(k.value, ast.Name) and k.value.id == pk for k in c.keywords) and len(c.args) == 1 and len(c.keywords) == 1
+        rep.ob(rule, "the function is called with exactly *args, **kwargs", fwd, node=u)
+    # awaited under the coroutine-function guard
+    tests = ctx.nodes(f, lambda n: n.op == "test" and mentions(n.ast, "iscoroutinefunction"))
+    if not tests:
+        rep.ob(rule, "coroutine functions are recognised (iscoroutinefunction guard)", None, func=f, construct="(no iscoroutinefunction test)")
+    for t in ctx.distinct_sites(tests):
+        neg = isinstance(t.ast, ast.UnaryOp) and isinstance(t.ast.op, ast.Not)
+        lab_true = "F" if neg else "T"
+        starts = [s for s, lab in t.succ if lab[0] == lab_true]
+        region = reach(starts, lambda a, b, lab: lab[0] in NORMAL_KINDS)
+        us = [u for u in ucalls if u in region and not any(u in reach([s for s, lab in t.succ if lab[0] != lab_true], lambda a, b, lab: lab[0] in NORMAL_KINDS) for _ in [0])]
+        for u in us:
+            awaited = any(m.op == "await" and strip_cast(m.ast.value) is u.ast for m in g.nodes)
+            rep.ob(rule, "under the coroutine-function guard the call is awaited (the callback runs to completion)", awaited, node=u)
+        rep.ob(rule, "the coroutine-function branch calls the function", bool(us), node=t)
